@@ -195,6 +195,19 @@ type rdAll struct {
 func readAll(c net.Conn, ks []int, gid *atomic.Value) rdAll {
 	var out rdAll
 	gid.Store(goid())
+	if ks[0] < 0 {
+		// the application drains the stream with io.Copy into a consumer that
+		// is slower than the packets arrive (it looks at what it was handed
+		// only after a while)
+		sink := &slowSink{}
+		_, err := io.Copy(sink, c)
+		out.data, out.calls = sink.data, sink.calls
+		out.err = err
+		if err == nil {
+			out.err = io.EOF
+		}
+		return out
+	}
 	for i := 0; ; i++ {
 		k := ks[i%len(ks)]
 		buf := make([]byte, k)
@@ -214,6 +227,18 @@ func readAll(c net.Conn, ks []int, gid *atomic.Value) rdAll {
 			return out
 		}
 	}
+}
+
+type slowSink struct {
+	data  []byte
+	calls int
+}
+
+func (s *slowSink) Write(p []byte) (int, error) {
+	s.calls++
+	time.Sleep(time.Duration(200+100*(s.calls%7)) * time.Microsecond)
+	s.data = append(s.data, p...)
+	return len(p), nil
 }
 
 func doWrites(c *ibb.Conn, ws []wstep) string {
@@ -493,6 +518,10 @@ func genCross(t *rapid.T) *crossCase {
 				c.ReadK[i] = 64
 			}
 		}
+	}
+	if rapid.IntRange(0, 3).Draw(t, "drainByCopy") == 0 {
+		// the accepting end drains with io.Copy into a slow consumer (see readAll)
+		c.ReadK = []int{-1}
 	}
 	c.RevK = rapid.SampledFrom([]int{1, 3, 64, 4096, 1 << 17}).Draw(t, "revk")
 	if len(concat(c.Rev)) > 20000 && c.RevK < 64 {
